@@ -27,7 +27,7 @@ def peq(a, b):
 def make_bay(it):
     bay = Obj(None)
     bay.name = 'bay'
-    bay.attrs.update(a=real('a'), b=real('b'), m=integer('m'), n=integer('n'), r=None, alphadeg=None, model='plate_clt_donnell_bardell')
+    bay.attrs.update(a=real('a'), b=real('b'), m=integer('m'), n=integer('n'), r=None, alphadeg=None, model='plate_clt_donnell_bardell', mu=real('mu_bay'))
     for f in FLAG_NAMES:
         bay.attrs[f] = real(f + '_bay')
     return bay
@@ -35,7 +35,7 @@ def make_bay(it):
 
 def skin(it, bay, name, y1, y2):
     p = panelctx.new_panel(it, a=bay.attrs['a'], b=bay.attrs['b'], y1=y1, y2=y2, stack=[real('ths')], plyts=[real('tskin_' + name)],
-                           laminaprops=[tuple(real(x + 's') for x in MAT)], mu=real('mu'), m=bay.attrs['m'], n=bay.attrs['n'],
+                           laminaprops=[tuple(real(x + 's') for x in MAT)], mu=real('mu_' + name), m=bay.attrs['m'], n=bay.attrs['n'],
                            model='plate_clt_donnell_bardell')
     p.name = name
     return p
@@ -58,6 +58,21 @@ def arg_diffs(t, want):
     return out
 
 
+def view_diffs(t, expect, label=''):
+    """differences between what a one-panel kernel term read from its panel and the expected attribute values; an expected
+    attribute that the kernel did not read is reported (a silently skipped comparison proves nothing)"""
+    out = []
+    pv = t.f['panel']
+    for key, e in expect.items():
+        if key == 'mu' and key not in pv:
+            continue                      # only the mass kernels read the density
+        if key not in pv:
+            out.append('%s%s: the kernel term does not record panel.%s' % (label, t.f['fn'], key))
+        elif not peq(pv[key], e):
+            out.append('%s%s: panel.%s = %s, expected %s' % (label, t.f['fn'], key, pycheck.describe(pv[key]), pycheck.describe(e)))
+    return out
+
+
 def flags_of(obj, suffix=''):
     return {f + suffix: obj.attrs[f] for f in FLAG_NAMES}
 
@@ -65,10 +80,7 @@ def flags_of(obj, suffix=''):
 def whole_domain(t, a, b):
     """the component panel (own functions, own coordinates, dimensions a x b) is integrated over its whole domain"""
     out = []
-    pv = t.f['panel']
-    for key, e in (('panel.a', a), ('panel.b', b)):
-        if key in pv and not peq(pv[key], e):
-            out.append('%s = %s, expected %s' % (key, pycheck.describe(pv[key]), pycheck.describe(e)))
+    out += view_diffs(t, dict(a=a, b=b))
     if t.f['fn'].endswith('y1y2'):
         y1, y2 = t.f['args'].get('y1'), t.f['args'].get('y2')
         if not (peq(y1, 0) and peq(y2, b)):
@@ -176,12 +188,16 @@ def check_tstiff2d(led):
                     continue
                 probs += ['%s: %s (interface line on the %s in its own coordinate)' % (fn, d, 'flange' if 'ycte2' in d else 'base') if 'ycte' in d else '%s: %s' % (fn, d)
                           for d in arg_diffs(ts[0], want)]
-                pv = ts[0].f['panel']
                 for key, obj in (('p1', base), ('p2', flange)):
+                    if key not in (ts[0].f.get('objs') or ()):
+                        continue
                     for f_ in ('a', 'b', 'm', 'n'):
-                        k2 = '%s.%s' % (key, f_)
-                        if k2 in pv and not peq(pv[k2], obj.attrs[f_]):
-                            probs.append('%s: %s = %s, expected the %s of the %s' % (fn, k2, pycheck.describe(pv[k2]), f_, 'base' if key == 'p1' else 'flange'))
+                        try:
+                            g_ = pycheck.view_get(ts[0], key, f_)
+                        except KeyError:
+                            continue              # this block does not read that attribute of that panel
+                        if not peq(g_, obj.attrs[f_]):
+                            probs.append('%s: %s.%s = %s, expected the %s of the %s' % (fn, key, f_, pycheck.describe(g_), f_, 'base' if key == 'p1' else 'flange'))
             kbf = {(pycheck.describe(byfn[fn][0].f['args'].get('kt')), pycheck.describe(byfn[fn][0].f['args'].get('kr'))) for fn in ('fkCBFycte11', 'fkCBFycte12', 'fkCBFycte22') if fn in byfn}
             if len(kbf) > 1:
                 probs.append('the three base-flange blocks use different penalty constants')
@@ -449,10 +465,7 @@ def check_bladestiff1d(led, which=('k0', 'kG0', 'kM')):
                         t = byfn[o][0]
                         y1, y2 = ys - bb * Fraction(1, 2), ys + bb * Fraction(1, 2)
                         probs += ['base %s: %s' % (o, d) for d in arg_diffs(t, dict(size=size, row0=row0, col0=row0, y1=y1, y2=y2))]
-                        pv = t.f['panel']
-                        for key, exp in (('panel.a', bay.attrs['a']), ('panel.b', bay.attrs['b']), ('panel.m', bay.attrs['m']), ('panel.n', bay.attrs['n'])):
-                            if key in pv and not peq(pv[key], exp):
-                                probs.append('base %s: %s = %s' % (o, key, pycheck.describe(pv[key])))
+                        probs += view_diffs(t, dict(a=bay.attrs['a'], b=bay.attrs['b'], m=bay.attrs['m'], n=bay.attrs['n'], mu=real('mu')), 'base ')
                     if any(k != 1 for k in scales):
                         probs.append('a contribution is scaled')
                     report(led, '%s[%s]' % (B1 + 'calc_' + wh, tag), B1 + 'calc_' + wh, probs)
@@ -630,16 +643,10 @@ def check_bladestiff2d(led):
                     t = ts[0]
                     if fn == pk:
                         probs += ['flange %s: %s' % (fn, d) for d in arg_diffs(t, dict(size=size, row0=row0, col0=row0))]
-                        pv = t.f['panel']
-                        for key, e in (('panel.a', bay.attrs['a']), ('panel.b', bf), ('panel.m', integer('mf')), ('panel.n', integer('nf'))):
-                            if key in pv and not peq(pv[key], e):
-                                probs.append('flange %s: %s = %s' % (fn, key, pycheck.describe(pv[key])))
+                        probs += view_diffs(t, dict(a=bay.attrs['a'], b=bf, m=integer('mf'), n=integer('nf'), mu=real('mu')), 'flange ')
                     elif fn == pk + 'y1y2':
                         probs += ['base %s: %s' % (fn, d) for d in arg_diffs(t, dict(size=size, row0=0, col0=0, y1=y1, y2=y2))]
-                        pv = t.f['panel']
-                        for key, e in (('panel.a', bay.attrs['a']), ('panel.b', bay.attrs['b']), ('panel.m', bay.attrs['m']), ('panel.n', bay.attrs['n'])):
-                            if key in pv and not peq(pv[key], e):
-                                probs.append('base %s: %s = %s' % (fn, key, pycheck.describe(pv[key])))
+                        probs += view_diffs(t, dict(a=bay.attrs['a'], b=bay.attrs['b'], m=bay.attrs['m'], n=bay.attrs['n'], mu=real('mu')), 'base ')
                     elif fn == 'fkCss':
                         probs += ['fkCss: ' + d for d in arg_diffs(t, dict(geo, ys=ys, size=size, row0=0, col0=0, **bayfl))]
                     elif fn == 'fkCsf':
@@ -718,10 +725,7 @@ def check_tstiff2d_kG0_kM(led):
                 probs += ['flange: ' + d for d in whole_domain(kern[1], bay.attrs['a'], bf)]
                 for t, lab, r0, dims in ((kern[0], 'base', row0, (bay.attrs['a'], bb, integer('mb'), integer('nb'))), (kern[1], 'flange', rowf, (bay.attrs['a'], bf, integer('mf'), integer('nf')))):
                     probs += ['%s: %s' % (lab, d) for d in arg_diffs(t, dict(size=size, row0=r0, col0=r0))]
-                    pv = t.f['panel']
-                    for key, e in zip(('panel.a', 'panel.b', 'panel.m', 'panel.n'), dims):
-                        if key in pv and not peq(pv[key], e):
-                            probs.append('%s: %s = %s' % (lab, key, pycheck.describe(pv[key])))
+                    probs += view_diffs(t, dict(zip(('a', 'b', 'm', 'n', 'mu'), dims + (real('mu'),))), lab + ' ')
             if any(k != 1 for k in scales):
                 probs.append('a contribution is scaled')
             report(led, func, func, probs)
